@@ -331,4 +331,16 @@ Definition fetch_chunk (c : cfg) (s : st) (height : nat) (chunk : bytes) : st * 
 Definition ensure_chunk_at (c : cfg) (s : st) (height : nat) (chunk : bytes) : st * fres :=
   if has_header c s height then (s, FHas) else fetch_chunk c s height chunk.
 
+(* get_raw_header while a chunk getter is installed (what get() / hash() do): ensure_chunk_at first -- the
+   server's answer for the 1000-block range of `height` is `chunk` -- then the bounds test and the read.
+   A checkpoint mismatch escapes as the bare Exception of fetch_chunk. *)
+Inductive lres := LOk (raw : bytes) | LIndexError | LMismatch.
+
+Definition lookup_header (c : cfg) (s : st) (height : nat) (chunk : bytes) : st * fres * lres :=
+  let '(s', r) := ensure_chunk_at c s height chunk in
+  match r with
+  | FMismatch => (s', r, LMismatch)
+  | _ => if Nat.ltb height (hsize s') then (s', r, LOk (read (io s') height)) else (s', r, LIndexError)
+  end.
+
 End Chain.
